@@ -291,6 +291,88 @@ func sortNearMiss() []*SortSpec {
 	}
 }
 
+// ---------------------------------------------------------------- several invocations in one package
+
+func partEnum(typ, sfx, kind string, cells [2]string, parsable bool) *Spec {
+	tn := "_T" + sfx
+	e := &EnumSpec{Type: typ, Underlying: "int", Label: "part_" + sfx,
+		Traits: []TraitCol{{Name: tn, Kind: kind}},
+		Lines:  []EnumLine{{Name: "A" + sfx, Value: "0", Cells: []string{cells[0]}}, {Name: "B" + sfx, Value: "1", Cells: []string{cells[1]}}}}
+	o := defaultOpts()
+	if parsable {
+		o.Parsable = []string{strings.TrimPrefix(tn, "_")}
+	}
+	return &Spec{Tool: "genum", Enum: e, GOpts: &o}
+}
+
+func partErr(typ string) *Spec {
+	return &Spec{Tool: "gerror", Err: &ErrSpec{Types: []string{typ}, Label: "part_" + typ,
+		Fields: []ErrField{{"Code", "int", "_,print,clone"}}}}
+}
+
+func partSort(typ, sorter string) *Spec {
+	return &Spec{Tool: "gsort", Sort: &SortSpec{Type: typ, Label: "part_" + typ, Fields: []SortField{
+		{"K", "string", []string{sorter + ",1"}}, {"N", "int", []string{sorter + ",2"}}}}}
+}
+
+// multiDefs: packages with two or three generator invocations, each with its own definition
+// file, //go:generate line and output file ("compiles together with its package").
+func multiDefs() []*Spec {
+	m := func(label string, parts ...*Spec) *Spec {
+		return &Spec{Tool: "multi", Kind: "multi", Label: label, Parts: parts}
+	}
+	return []*Spec{
+		m("genum_x2_parsable_int", partEnum("Color", "C", "uint", [2]string{"10", "11"}, true),
+			partEnum("Shape", "S", "uint", [2]string{"20", "21"}, true)),
+		m("genum_x2_parsable_string", partEnum("Color", "C", "ustring", [2]string{`"a"`, `"b"`}, true),
+			partEnum("Shape", "S", "ustring", [2]string{`"c"`, `"d"`}, true)),
+		m("genum_x3_int64_uint8_duration", partEnum("Color", "C", "tint64", [2]string{"int64(1)", "int64(2)"}, true),
+			partEnum("Shape", "S", "tuint8", [2]string{"uint8(3)", "uint8(4)"}, true),
+			partEnum("Size", "Z", "duration", [2]string{"1 * xtime.Second", "2 * xtime.Second"}, true)),
+		m("genum_x2_unparsable_float", partEnum("Color", "C", "ufloat", [2]string{"1.5", "2.5"}, false),
+			partEnum("Shape", "S", "tfloat32", [2]string{"float32(1)", "float32(2)"}, true)),
+		m("gsort_x2", partSort("RecA", "ByA"), partSort("RecB", "*ByB")),
+		m("gerror_x2", partErr("ErrA"), partErr("ErrB")),
+		m("genum_gsort_gerror", partEnum("Color", "C", "uint", [2]string{"10", "11"}, true), partSort("RecA", "ByA"), partErr("ErrA")),
+	}
+}
+
+// doubleImportDefs: definition files that import one package twice (plain + renamed, renamed +
+// plain, two renamed) or use an import name only inside trait cells, with cells written through
+// each name.
+func doubleImportDefs() []*EnumSpec {
+	dur := []TraitCol{{Name: "_Timeout", Kind: "tdur"}}
+	lim := []TraitCol{{Name: "_Lim", Kind: "uint"}}
+	mk := func(label string, traits []TraitCol, imports [][2]string, cells ...string) *EnumSpec {
+		e := &EnumSpec{Type: "Color", Underlying: "int", Label: label, Traits: traits, Imports: imports}
+		for i, c := range cells {
+			e.Lines = append(e.Lines, EnumLine{Name: fmt.Sprintf("V%d", i), Value: fmt.Sprint(i), Cells: []string{c}})
+		}
+		return e
+	}
+	return []*EnumSpec{
+		mk("import_plain_then_renamed", dur, [][2]string{{"", "time"}, {"stdtime", "time"}},
+			"1 * time.Second", "2 * stdtime.Second", "3 * time.Second"),
+		mk("import_renamed_then_plain", dur, [][2]string{{"stdtime", "time"}, {"", "time"}},
+			"1 * stdtime.Second", "2 * stdtime.Second", "3 * time.Second"),
+		mk("import_two_renamed", dur, [][2]string{{"ta", "time"}, {"tb", "time"}},
+			"1 * ta.Second", "2 * tb.Second", "3 * ta.Second"),
+		mk("import_two_renamed_first_line_second_name", dur, [][2]string{{"ta", "time"}, {"tb", "time"}},
+			"1 * tb.Second", "2 * ta.Second"),
+		mk("import_name_only_in_cells_renamed", lim, [][2]string{{"m", "math"}}, "m.MaxInt8", "m.MaxInt16"),
+		mk("import_name_only_in_cells_plain", lim, [][2]string{{"", "math"}}, "math.MaxInt8", "math.MaxInt16"),
+	}
+}
+
+func doubleImportOtherTools() []*Spec {
+	return []*Spec{
+		{Tool: "gerror", Kind: "imports", Err: &ErrSpec{Types: []string{"MyErr"}, Label: "fields_through_two_import_names", Fields: []ErrField{
+			{"At", "time.Time", "_,print,clone"}, {"Wait", "stdtime.Duration", "_,print,clone"}}}},
+		{Tool: "gsort", Kind: "imports", Sort: &SortSpec{Type: "Rec", Label: "fields_through_two_import_names", Fields: []SortField{
+			{"At", "stdtime.Time", []string{"ByTime,1,UnixNano()"}}, {"Wait", "time.Duration", []string{"ByTime,2"}}}}},
+	}
+}
+
 // ---------------------------------------------------------------- the three tiers
 
 func defaultOpts() GenumOpts { return GenumOpts{JSON: true, YAML: true, Text: true} }
@@ -337,6 +419,13 @@ func quickSpecs(r *rand.Rand) []*Spec {
 	for _, sp := range nearMissDefs() {
 		add("nearmiss", sp.E, withParsable(defaultOpts(), sp.Parsable))
 	}
+	for i, e := range doubleImportDefs() {
+		add("imports", e, withParsable(defaultOpts(), nil))
+		if i%2 == 0 {
+			add("imports", e, withParsable(settings[r.IntN(32)], []string{traitName(e.Traits[0])}))
+		}
+	}
+	out = append(out, multiDefs()...)
 	out = append(out, otherToolSpecs()...)
 	return out
 }
@@ -366,6 +455,7 @@ func otherToolSpecs() []*Spec {
 	for _, s := range sortNearMiss() {
 		out = append(out, &Spec{Tool: "gsort", Kind: "nearmiss", Sort: s})
 	}
+	out = append(out, doubleImportOtherTools()...)
 	return out
 }
 
@@ -404,6 +494,15 @@ func thoroughSpecs(r *rand.Rand, cap int) []*Spec {
 			add("nearmiss", sp.E, withParsable(s, sp.Parsable))
 		}
 	}
+	for _, e := range doubleImportDefs() {
+		for _, st := range settings {
+			add("imports", e, withParsable(st, nil))
+			if !st.DisableTraits {
+				add("imports", e, withParsable(st, []string{traitName(e.Traits[0])}))
+			}
+		}
+	}
+	out = append(out, multiDefs()...)
 	out = append(out, otherToolSpecs()...)
 	return out
 }
